@@ -381,6 +381,10 @@ Section Num.
         else Cont (mkS (mkF "" [] [None] (Some e0) :: stk st) (droot st) (lvl st + 1)%Z (Some OPENPAR) (perr st)) r
       end
     | CLOSEPAR =>
+      (* fix bd702f3: a closing parenthesis below level 0 is an error *)
+      if (lvl st - 1 <? 0)%Z
+      then Stop (IErr "newick Error: Mismatched parenthesis: closing parenthesis after the end of the tree")
+      else
       match pop st with
       | None => Stop (IErr "newick Error: Closing parenthesis while the stack is already empty")
       | Some (stk', dr') => Cont (mkS stk' dr' (lvl st - 1)%Z (Some CLOSEPAR) false) r
